@@ -1,4 +1,5 @@
 """C13 — IndicesSyncer completes index sets and remote index lists to mutual consistency."""
+from translators import tr_c13
 
 PID = "C13"
 CLAIM = True
@@ -15,17 +16,21 @@ MANIFEST_TEXT = ("Lean 4 theorems, for every process count P, every decompositio
                  "processing order, the exchange matches (one message per neighbour), and syncing after deleting copies from a "
                  "state with the shape of the consistent state (the consistent state itself or the result of an earlier "
                  "round) restores exactly that shape, kept pairs keeping their local numbers and restored ones numbered by "
-                 "the numberer, whenever some other process still lists each deleted copy.  A numberer object with internal "
-                 "state is modelled too: same index pairs and remote lists as with a pure numbering, one call per added index, "
-                 "consecutive distinct numbers.  Each run executes the real IndicesSyncer (default numberer, pure user "
-                 "numberer, counting numberer object; fixed and arrival order; deletion through RemoteIndexListModifier or "
+                 "the numberer, whenever some other process still lists each deleted copy.  Numberer objects with internal "
+                 "state are modelled too (state threaded through the receives): same index pairs and remote lists as with a "
+                 "pure numbering, exactly one call per added index on the caller's object, consecutive distinct numbers for a "
+                 "counter.  The field-type layouts of calculateMessageSizes / packAndSend / recvAndUnpack are regenerated from "
+                 "the source on every run (tr_c13.py) and proved consistent: the receiver unpacks what the sender packed and "
+                 "the reserved buffer suffices for every message size.  Each run executes the real IndicesSyncer (default "
+                 "numberer, pure user numberer, counting and slot-recycling numberer objects; fixed and arrival order; deletion through RemoteIndexListModifier or "
                  "SLList iterators; a second delete-and-sync or sync-again round in 40 % of the cases) under mpirun -np 1..4 "
                  "(quick) / 1..6 (thorough) on random overlapping decompositions with seeded per-rank start delays, compares "
                  "the complete state of every rank before the sync, after it and after the second round with the model and "
                  "evaluates the property itself with a set-theoretic oracle.")
 MANIFEST_NOTE = ("Trusted: Lean kernel (+propext/Classical.choice/Quot.sound), the hand-written protocol model's fidelity "
                  "(differential runs only, bounded: P<=6, <=14 globals, <=2 rounds), harness oracle, g++/ASan/UBSan, OpenMPI "
-                 "(reliable, pairwise FIFO; MPI_Pack layout and buffer-size computation exercised, not modelled).  The SLList "
+                 "(reliable, pairwise FIFO; the bytes MPI_Pack produces are not modelled, only the sequence of field types, read "
+                 "from the source by tools/translators/tr_c13.py).  The SLList "
                  "iterator bookkeeping of the syncer (Iterators, resetIteratorsMap, checkReset) and the pointer representation "
                  "of remote indices are covered by the runs + ASan only; the model keeps references as (global, attribute) "
                  "keys, as the code does during sync.  Hypotheses of the theorems: every global index at most once per index "
@@ -34,7 +39,7 @@ MANIFEST_NOTE = ("Trusted: Lean kernel (+propext/Classical.choice/Quot.sound), t
                  "sync only consumes the messages of that sync (fixes/C13_syncer_arrival_order_mixes_syncs.patch; before it, "
                  "MPI_ANY_SOURCE let a fast neighbour's next-sync message be taken for a slow neighbour's outstanding one).")
 TECHNIQUE = "Lean 4 proof over a message-level protocol model + differential correspondence under MPI (two-round histories, seeded start delays) and a set-theoretic oracle"
-TRANSLATORS = []
+TRANSLATORS = [tr_c13.translate]
 HARNESS = dict(
     sources=["mpi_c13.cc", "pmpi_sched.cc"],
     mpi=True,
@@ -46,21 +51,23 @@ RULE = ("cases: rank 0 draws a decomposition (<= 9 quick / 14 thorough global in
         "copies too) are deleted with probability 0/25/50/75/100 % (markAsDeleted + removal of the remote entries through "
         "RemoteIndexListModifier or SLList modify iterators); in a third of the cases processes also add new copies and "
         "announce them for neighbours that do not hold them (new neighbours arise in the sparse style); then "
-        "IndicesSyncer::sync with the default numberer, a pure user numberer or a counting numberer object, arrival or fixed "
-        "order; in 40 % of the cases a second round follows without any synchronisation in between (sync again, or delete "
+        "IndicesSyncer::sync with the default numberer, a pure user numberer, a counting numberer object or one that recycles "
+        "the slots of the deleted copies (calls, free slots and next fresh number compared with the model), arrival or fixed "
+        "order; a 'hub' style (1/5 of the cases with >= 3 ranks) lets the lower-ranked neighbours share the higher global "
+        "indices so that re-announcements arrive in descending order across messages; in 40 % of the cases a second round follows without any synchronisation in between (sync again, or delete "
         "the same copies again and sync); every rank enters each sync after a seeded delay of 0..1 ms so that arrival orders "
         "vary and fast ranks overtake slow ones.  The state of every rank is compared before the first sync, after it and "
         "after the second.  distinct = distinct op lines; non-trivial = at least one process had a non-empty remote index "
         "list before the sync")
 ASSUMPTIONS = [
     "the Lean model lean/DuneVerif/Model/C13.lean is hand-written (protocol level); its fidelity to indicessyncer.hh rests on this differential run (P <= 6, <= 2 rounds)",
-    "MPI is trusted: reliable, pairwise FIFO; MPI_Pack layout and the message size computation are exercised, not modelled",
+    "MPI is trusted: reliable, pairwise FIFO; of the wire format only the sequence of field types is modelled (regenerated from the source by tr_c13.py: MPI_Pack_size/MPI_Pack/MPI_Unpack calls with their loop nesting); the bytes are exercised only",
     "the consistent initial state is defined in the model directly from the decomposition by the specification of RemoteIndices::rebuild (C04 proves that rebuild meets it); the harness uses the real rebuild and compares the state before the sync with the model as well",
     "every global index occurs at most once per index set; all beliefs agree with one decomposition; the neighbour relation is symmetric",
     "arrival orders are varied by seeded start delays (after fixes/C13_syncer_arrival_order_mixes_syncs.patch the syncer no longer probes MPI_ANY_SOURCE, so the PMPI scheduler has nothing to permute); order independence for all orders is the theorem order_irrelevant",
     "the model describes the tree with fixes/C13_syncer_duplicate_remote_entry.patch, fixes/C13_syncer_index_added_twice.patch, fixes/C13_modifier_repair_pointers.patch and fixes/C13_syncer_arrival_order_mixes_syncs.patch applied",
 ]
-TRUSTED = ["g++/libstdc++, ASan/UBSan, OpenMPI", "harness/mpi_c13.cc (generator, executor, set-theoretic oracle) + harness/pmpi_sched.cc",
+TRUSTED = ["g++/libstdc++, ASan/UBSan, OpenMPI", "translator tr_c13.py", "harness/mpi_c13.cc (generator, executor, set-theoretic oracle) + harness/pmpi_sched.cc",
            "Driver/C13.lean parsing/printing and its construction of the pre-sync state from the op line"]
 
 
